@@ -44,6 +44,7 @@ unsigned short nondet_ushort(void);
    (forward for "count <= position", backward for "count <= total"); the induction principle itself is the
    only step that is not machine-checked */
 void harness(void) {
+    GHOST_INDICES_ARBITRARY();
     size_t p = nondet_size(), len = nondet_size();
     __CPROVER_assume(p < len && len <= CMP_KOBJ);
     char b = nondet_char();                                   /* the byte at position p */
@@ -58,6 +59,7 @@ void harness(void) {
 }
 #else
 void harness(void) {
+    GHOST_INDICES_ARBITRARY();
 #ifdef FIXED_OBJ
     size_t nk = CMP_KOBJ, ne = CMP_EOBJ;
     char key[CMP_KOBJ], elm[CMP_EOBJ];
